@@ -195,6 +195,11 @@ func (t *GenericStructType) String() string {
 
 // returns a new struct type with the fields filled in correctly
 func GetInstantiatedStructType(s *GenericStructType, genericTypes []Type) *StructType {
+	// a type parameter that could not be determined (nil) cannot be used to instantiate the struct
+	if slices.Contains(genericTypes, nil) {
+		return nil
+	}
+
 	for _, instantiation := range s.Instantiations {
 		if slices.EqualFunc(instantiation.instantiatedWith, genericTypes, Equal) {
 			return instantiation
